@@ -191,3 +191,26 @@ Theorem served_content_partial :
     0 <= j < tw (sg s) -> 0 <= k < th (sg s) ->
     model_pixel m q HowMeta c j k = Some (stored_pixel (sg s) q r (tw (sg s), th (sg s)) (0, 0) j k).
 Proof. exact served_content_exact_l. Qed.
+
+(* WMS-C: the advertised-served statement under the exact Origin condition of tms_address_exact_iff only (the lower-left
+   corner of the TileSet BoundingBox is the south-west corner of tile (0,0) of that level) - the layer extent may differ
+   from the grid bbox otherwise. *)
+Theorem wmsc_advertised_served_origin :
+  forall s i j l,
+    wf (sg s) -> decreasing_res (sg s) -> 0 < sf_d (sg s) <= sf_n (sg s) -> 0 < shr_d (sg s) <= shr_n (sg s) ->
+    tms_origin_ok s l ->
+    limit_tile (sg s) i j l = Some (i, j, l) -> 10 <= res_at (sg s) l ->
+    wmsc_get_map (sg s) (wmsc_client_rect s (res_at (sg s) l) i j) (tw (sg s)) (th (sg s)) =
+    WLoaded (flip_for (sg s) OSW (i, j, l)).
+Proof. exact wmsc_advertised_served_origin_l. Qed.
+
+(* TileServiceGrid.internal_level (demo pages): names the level TMS requests of that order are served from ... *)
+Theorem internal_level_consistent :
+  forall s z, skip_first s && skip_odd s = false -> internal_level s z = public_level s true z.
+Proof. exact internal_level_consistent_l. Qed.
+
+(* ... except on global-profile sqrt2 grids, where it is two grid levels further down (order 0: level 4 instead of 2;
+   TileServiceGrid.bbox then raises IndexError on grids with at most 4 levels: ex_internal_level). *)
+Theorem internal_level_sqrt2_profile_offset :
+  forall s z, skip_first s = true -> skip_odd s = true -> internal_level s z = public_level s true z + 2.
+Proof. exact internal_level_offset_l. Qed.
